@@ -1,11 +1,14 @@
 /-
-Faithful pair scores, as far as they hold (finding K5): as long as the traceback only takes
-`case`s that belong to its current layer (the ghost flag `TB.tie` stays false), the score
-accumulated for the current segment is the score recomputed from the letters — a block is the
-sum of its letter pairs, a gap run is its per-letter gap scores plus `gapOpen` exactly when
-the run has been closed by its opening step.  Core only.
+Faithful pair scores: as long as the traceback only takes `case`s that belong to its current
+layer (the ghost flag `TB.tie` stays false), the score accumulated for the current segment is
+the score recomputed from the letters — a block is the sum of its letter pairs, a gap run is
+its per-letter gap scores plus `gapOpen` exactly when the run has been closed by its opening
+step.  The layer-aware switch (after the repair of K5) never raises the flag
+(`loop_tie_aware`), so for it the invariant holds unconditionally (`loop_faith_aware`); the
+layer-blind switch it replaced could (finding K5).  Core only.
 -/
 import Biogo.Proofs.TraceWF
+import Biogo.Proofs.TraceSum
 
 set_option linter.unusedVariables false
 
@@ -255,9 +258,9 @@ theorem move_tie (st : TB) (e : Bool) (mv pl : Kind) (v pv : Int) :
   · rw [move_keep st e mv pl v pv h]
 
 /-- as long as no step leaves its layer, the score invariant holds along the loop -/
-theorem loop_faith (sw : Bool) (T : Table) (S : Matrix) (o : Int) (r q : List Nat) (R C I0 J0 : Nat) :
+theorem loop_faith (aware sw : Bool) (T : Table) (S : Matrix) (o : Int) (r q : List Nat) (R C I0 J0 : Nat) :
     ∀ (fuel : Nat) (st st' : TB), Inv R C I0 J0 st → (st.tie = false → Faith S o r q st) →
-      tbLoop sw T S o r q R C fuel st = .ok st' → (st'.tie = false → Faith S o r q st') := by
+      tbLoop aware sw T S o r q R C fuel st = .ok st' → (st'.tie = false → Faith S o r q st') := by
   intro fuel
   induction fuel with
   | zero => intro st st' _ hf hl; simp only [tbLoop] at hl; cases hl; exact hf
@@ -277,15 +280,15 @@ theorem loop_faith (sw : Bool) (T : Table) (S : Matrix) (o : Int) (r q : List Na
       · rw [if_pos hsw] at hl; cases hl; exact hf
       rw [if_neg hsw] at hl
       cases hfind : (cands sw S o (r.getD (st.i - 1) 0) (q.getD (st.j - 1) 0)).find?
-          (fun cd => vadd ((predOf T st.i st.j cd.1).get cd.2.1) cd.2.2 == some v) with
+          (caseHit aware T st v) with
       | none => rw [hfind] at hl; cases hl
       | some cd =>
         obtain ⟨mv, pl, add⟩ := cd
         rw [hfind] at hl
         simp only [] at hl
         have hmem := List.mem_of_find?_eq_some hfind
-        have hp := List.find?_some hfind
-        simp only [beq_iff_eq] at hp
+        have hp := Biogo.Proofs.TraceSum.caseHit_vadd (List.find?_some hfind)
+        simp only [] at hp
         have hadd : v - vget ((predOf T st.i st.j mv).get pl) = add := by
           cases hx : (predOf T st.i st.j mv).get pl with
           | none => rw [hx] at hp; cases hp
@@ -318,6 +321,45 @@ theorem loop_faith (sw : Bool) (T : Table) (S : Matrix) (o : Int) (r q : List Na
           · exact Or.inl ⟨rfl, by rw [hadd, e]⟩
           · exact Or.inr ⟨rfl, by rw [hadd, e]⟩
         · exact move_faith_m hinv hf0 (by omega) (by omega) pl v _ hlay (by rw [hadd, hs])
+
+/-- the layer-aware switch only takes `case`s of the current layer: the ghost flag never changes -/
+theorem loop_tie_aware (sw : Bool) (T : Table) (S : Matrix) (o : Int) (r q : List Nat) (R C : Nat) :
+    ∀ (fuel : Nat) (st st' : TB), tbLoop true sw T S o r q R C fuel st = .ok st' → st'.tie = st.tie := by
+  intro fuel
+  induction fuel with
+  | zero => intro st st' hl; simp only [tbLoop] at hl; cases hl; rfl
+  | succ fuel ih =>
+    intro st st' hl
+    unfold tbLoop at hl
+    by_cases h0 : st.i = 0 ∨ st.j = 0
+    · rw [if_pos h0] at hl; cases hl; rfl
+    rw [if_neg h0] at hl
+    simp only [] at hl
+    cases hv : (T.at st.i st.j).get st.layer with
+    | none => rw [hv] at hl; cases hl
+    | some v =>
+      rw [hv] at hl
+      simp only [] at hl
+      by_cases hsw : (sw = true ∧ v = 0)
+      · rw [if_pos hsw] at hl; cases hl; rfl
+      rw [if_neg hsw] at hl
+      cases hfind : (cands sw S o (r.getD (st.i - 1) 0) (q.getD (st.j - 1) 0)).find?
+          (caseHit true T st v) with
+      | none => rw [hfind] at hl; cases hl
+      | some cd =>
+        obtain ⟨mv, pl, add⟩ := cd
+        rw [hfind] at hl
+        simp only [] at hl
+        have hlay : mv = st.layer := Biogo.Proofs.TraceSum.caseHit_layer (List.find?_some hfind)
+        rw [ih _ _ hl, move_tie]
+        simp [hlay]
+
+/-- **the score invariant holds along the layer-aware loop**, unconditionally -/
+theorem loop_faith_aware (sw : Bool) (T : Table) (S : Matrix) (o : Int) (r q : List Nat) (R C I0 J0 : Nat)
+    (fuel : Nat) (st st' : TB) (hinv : Inv R C I0 J0 st) (ht : st.tie = false) (hf : Faith S o r q st)
+    (hl : tbLoop true sw T S o r q R C fuel st = .ok st') : Faith S o r q st' :=
+  loop_faith true sw T S o r q R C I0 J0 fuel st st' hinv (fun _ => hf) hl
+    (by rw [loop_tie_aware sw T S o r q R C fuel st st' hl]; exact ht)
 
 /-- the initial state -/
 theorem init_faith (S : Matrix) (o : Int) (r q : List Nat) (I0 J0 : Nat) (layer : Kind) (hI : 0 < I0)
